@@ -24,6 +24,10 @@ ASSUMPTIONS = [
     "both sides - a newer one-sided / empty top of book replaces it - else the last public trade), otherwise the "
     "estimate is evaluated at an older price",
     "L1 events carry last_update_time == time_exchange; public trade prices are f64 (integers in the scenarios)",
+    "two-sided top-of-book events come in every shape - normal, locked (bid = ask) and crossed (bid > ask), unequal "
+    "amounts - and the documented price of any two-sided book is its volume-weighted mid "
+    "(bid.price*ask.amount + ask.price*bid.amount)/(bid.amount + ask.amount), transcribed exactly into the data-state model",
+    "fill fees may be negative (maker rebates), zero or positive; the estimate is linear in the entry fees",
     "prices are any integers: market prices (trades, L1 mids) and - for this property only - fill prices include 0 and "
     "negative values (spreads, sub-zero futures); C15 does not restrict the sign of a price",
 ]
